@@ -130,7 +130,8 @@ def make_struct_model(ctx):
 def real_sqrt(ctx, x, name="sqrt"):
     """sqrt model: fresh h with h >= 0 and h*h == x (exact over the reals)."""
     if not is_symbolic(x):
-        return math.sqrt(x)
+        with NoTracing():
+            return math.sqrt(x)
     h = ctx.real(name)
     ctx.assume(h >= 0)
     ctx.assume(h * h == x)
@@ -139,7 +140,8 @@ def real_sqrt(ctx, x, name="sqrt"):
 
 def real_hypot(ctx, *xs):
     if not any(is_symbolic(x) for x in xs):
-        return math.hypot(*xs)
+        with NoTracing():
+            return math.hypot(*xs)
     s = 0
     for x in xs:
         s = s + x * x
@@ -177,7 +179,8 @@ class TrigTable:
 
     def _pair(self, x):
         if not is_symbolic(x):
-            return math.cos(x), math.sin(x)
+            with NoTracing():
+                return math.cos(x), math.sin(x)
         with NoTracing():
             for (k, c, s) in self.table:
                 if z3.eq(z3.simplify(k), z3.simplify(x.var)):
@@ -207,7 +210,8 @@ class UF:
 
     def __call__(self, *args):
         if not any(is_symbolic(a) for a in args):
-            return self.concrete(*args)
+            with NoTracing():
+                return self.concrete(*args)
         from symx.engine import _smt
 
         with NoTracing():
@@ -284,3 +288,148 @@ MATH_MODELS = [
 def math_patches():
     return {math.hypot: m_hypot, math.sqrt: m_sqrt, math.cos: m_cos, math.sin: m_sin,
             math.atan2: m_atan2, math.asin: m_asin, math.acos: m_acos}
+
+
+# ------------------------------------------------------------------ rotations and a tiny numpy stand-in
+class PyVec(list):
+    """Pure-Python stand-in for a short numpy vector (elementwise -, +, scalar * and /)."""
+
+    def _zip(self, other):
+        other = list(other)
+        assert len(other) == len(self)
+        return zip(self, other)
+
+    def __sub__(self, other):
+        return PyVec(a - b for a, b in self._zip(other))
+
+    def __rsub__(self, other):
+        return PyVec(b - a for a, b in self._zip(other))
+
+    def __add__(self, other):
+        return PyVec(a + b for a, b in self._zip(other))
+
+    __radd__ = __add__
+
+    def __mul__(self, k):
+        return PyVec(a * k for a in self)
+
+    __rmul__ = __mul__
+
+    def __truediv__(self, k):
+        return PyVec(a / k for a in self)
+
+    def __neg__(self):
+        return PyVec(-a for a in self)
+
+    def __getitem__(self, i):
+        r = list.__getitem__(self, i)
+        return PyVec(r) if isinstance(i, slice) else r
+
+    @property
+    def coordinates(self):
+        return tuple(self)
+
+
+class SymRot:
+    """A rotation as a 3x3 matrix of reals with orthonormal rows and columns and determinant 1.
+
+    MODEL (stands for scipy Rotation): `apply(vs)` maps each row vector v to M v; `inv()` is the
+    transpose."""
+
+    MODEL = ("scipy Rotation: 3x3 real matrix M with orthonormal rows and columns, det M = 1; "
+             "apply(v) = M v, inverse = transpose")
+
+    def __init__(self, ctx=None, name="R", m=None, constrain=True):
+        if m is None:
+            m = [[ctx.real(f"{name}{i}{j}", -1, 1) for j in range(3)] for i in range(3)]
+            if constrain:
+                for i in range(3):
+                    for j in range(i, 3):
+                        want = 1 if i == j else 0
+                        ctx.assume(sum(m[i][k] * m[j][k] for k in range(3)) == want)
+                        ctx.assume(sum(m[k][i] * m[k][j] for k in range(3)) == want)
+                det = (m[0][0] * (m[1][1] * m[2][2] - m[1][2] * m[2][1]) - m[0][1] * (m[1][0] * m[2][2] - m[1][2] * m[2][0])
+                       + m[0][2] * (m[1][0] * m[2][1] - m[1][1] * m[2][0]))
+                ctx.assume(det == 1)
+        self.m = m
+
+    @staticmethod
+    def about_axis(ctx, axis, name="rot"):
+        """Rotation by an arbitrary angle about one coordinate axis: (c, s) with c*c + s*s = 1."""
+        c, s = ctx.real(name + ".cos", -1, 1), ctx.real(name + ".sin", -1, 1)
+        ctx.assume(c * c + s * s == 1)
+        if axis == "z":
+            m = [[c, -s, 0], [s, c, 0], [0, 0, 1]]
+        elif axis == "x":
+            m = [[1, 0, 0], [0, c, -s], [0, s, c]]
+        else:
+            m = [[c, 0, s], [0, 1, 0], [-s, 0, c]]
+        return SymRot(m=m)
+
+    def mat_vec(self, v):
+        v = list(v)
+        return PyVec(sum(self.m[i][k] * v[k] for k in range(3)) for i in range(3))
+
+    def apply(self, vs, inverse=False):
+        r = self.inv() if inverse else self
+        vs = list(vs)
+        if vs and not isinstance(vs[0], (list, tuple)) and not hasattr(vs[0], "__len__"):
+            return r.mat_vec(vs)
+        return [r.mat_vec(v) for v in vs]
+
+    def inv(self):
+        return SymRot(m=[[self.m[j][i] for j in range(3)] for i in range(3)])
+
+    def __mul__(self, other):
+        return SymRot(m=[[sum(self.m[i][k] * other.m[k][j] for k in range(3)) for j in range(3)] for i in range(3)])
+
+    @staticmethod
+    def concrete(rot):
+        """SymRot from a real scipy Rotation (concrete replay)."""
+        return SymRot(m=[[float(x) for x in row] for row in rot.as_matrix()])
+
+
+class NPShim:
+    """Minimal stand-in for the numpy functions used by the point branch of visibility.canSee."""
+
+    MODEL = ("numpy.array/linalg.norm/mod on 3-vectors as pure Python over the reals; numpy.arctan2 / arcsin: "
+             "uninterpreted functions whose argument terms are logged")
+    pi = math.pi
+
+    def __init__(self, ctx):
+        self.ctx = ctx
+        self.calls = []
+        shim = self
+
+        class _L:
+            @staticmethod
+            def norm(v, axis=None):
+                r = real_hypot(ctx, *list(v))
+                shim.calls.append(("norm", list(v), r))
+                return r
+
+        self.linalg = _L()
+
+    def array(self, x):
+        x = list(x)
+        if x and hasattr(x[0], "__len__"):
+            return [PyVec(r) for r in x]
+        return PyVec(x)
+
+    def arctan2(self, y, x):
+        r = _uf("arctan2", math.atan2)(y, x)
+        self.calls.append(("arctan2", y, x, r))
+        return r
+
+    def arcsin(self, x):
+        r = _uf("arcsin", math.asin)(x)
+        self.calls.append(("arcsin", x, r))
+        return r
+
+    def mod(self, a, b):
+        if not is_symbolic(a):
+            return math.fmod(math.fmod(a, b) + b, b)
+        q = a / b
+        with NoTracing():
+            fl = SymbolicInt(z3.ToInt(q.var))
+        return a - b * fl
